@@ -1,8 +1,160 @@
-From Coq Require Import List NArith.
-From NV Require Import Base.Percent Base.PercentProofs.
+(* C18 -- GFF3, GTF and BED lines round-trip, including escaping of reserved characters.
+   Property theorems only (each closed by [exact] of a lemma of theories/, followed by Print
+   Assumptions).  Models: NV.Base.Percent (the percent-encoding crate), NV.Text.Gff / Gtf / Bed
+   (noodles-gff, noodles-gtf, noodles-bed writers and readers), NV.Text.TextBase.
+   [fmt]/[prs] stand for f32 Display / lexical_core::parse::<f32>: every theorem that mentions
+   them is universally quantified over them and assumes only, for the score actually present,
+   prs (fmt x) = Some x, no TAB/LF in fmt x, fmt x <> '.' (part of [gff_wf]). *)
+From Coq Require Import List NArith Lia.
+From NV Require Import Base.Percent Base.PercentProofs Text.TextBase Text.TextBaseProofs
+  Text.Gff Text.GffProofs Text.Gtf Text.GtfProofs Text.Bed Text.BedProofs.
 Import ListNotations.
 Open Scope N_scope.
 
+(* ---- percent-encoding (shared with C09) ---- *)
 Theorem c18_pct_dec_enc : forall S s, S 37 = true -> bytes_ok s -> pct_dec (pct_enc S s) = s.
 Proof. exact pct_dec_enc. Qed.
 Print Assumptions c18_pct_dec_enc.
+
+Theorem c18_pct_enc_avoids : forall S s c, bytes_ok s ->
+  S c = true -> c <> 37 -> is_hex_upper c = false -> ~ In c (pct_enc S s).
+Proof. exact pct_enc_avoids. Qed.
+Print Assumptions c18_pct_enc_avoids.
+
+(* ---- GFF3 attributes ---- *)
+Theorem c18_gff_attr_tag_roundtrip : forall t, bytes_ok t -> pct_dec (pct_enc attr_set t) = t.
+Proof. exact gff_attr_tag_roundtrip. Qed.
+Print Assumptions c18_gff_attr_tag_roundtrip.
+
+(* a value of k >= 2 items reads back as the same array in the same order, a single item as a
+   string (Array [x] and String x are the same text) *)
+Theorem c18_gff_attr_value_roundtrip : forall v, Forall bytes_ok (value_items v) ->
+  gff_parse_value (gff_value_text v) = canon_value v.
+Proof. exact gff_attr_value_roundtrip. Qed.
+Print Assumptions c18_gff_attr_value_roundtrip.
+
+Theorem c18_canon_value_items : forall v, value_items v <> [] -> value_items (canon_value v) = value_items v.
+Proof. exact canon_value_items. Qed.
+Print Assumptions c18_canon_value_items.
+
+(* whole attribute column, any number of attributes, arbitrary bytes in tags and values:
+   the separators ';' '=' ',' cannot occur in encoded text *)
+Theorem c18_gff_attrs_roundtrip : forall a, Forall attr_ok a ->
+  gff_attrs_parse (gff_attrs_text a) = (canon_attrs a, None).
+Proof. exact gff_attrs_roundtrip. Qed.
+Print Assumptions c18_gff_attrs_roundtrip.
+
+(* ---- GFF3 records ---- *)
+(* for EVERY sequence id: what the reader returns is the ENCODED id (faithful to the code) *)
+Theorem c18_gff_record_readback : forall fmt prs r line,
+  gff_wf fmt prs r -> gff_write fmt r = Ok line ->
+  gff_read prs (line ++ [10]) = Rec (gff_expected r).
+Proof. exact gff_record_readback. Qed.
+Print Assumptions c18_gff_record_readback.
+
+(* the positive theorem, outside the known class (seqid free of the seqid encode set; source and
+   type free of TAB/LF -- in gff_wf) *)
+Theorem c18_gff_record_roundtrip : forall fmt prs r line,
+  gff_wf fmt prs r -> seqid_plain r -> gff_write fmt r = Ok line ->
+  exists l, gff_read prs (line ++ [10]) = Rec l /\ owned_of_lazy l = Ok (canon_feature r)
+            /\ l_seqid l = f_seqid r.
+Proof. exact gff_record_roundtrip. Qed.
+Print Assumptions c18_gff_record_roundtrip.
+
+(* the property as stated (ids with reserved characters decoded on input) is false of the code *)
+Theorem c18_gff_seqid_refuted : exists r line,
+  gff_wf (fun _ => []) (fun _ => None) r /\ gff_write (fun _ => []) r = Ok line /\
+  exists l, gff_read (fun _ => None) (line ++ [10]) = Rec l /\ l_seqid l <> f_seqid r.
+Proof. exact gff_seqid_refuted. Qed.
+Print Assumptions c18_gff_seqid_refuted.
+
+Theorem c18_gff_source_refuted : exists r line,
+  gff_write (fun _ => []) r = Ok line /\
+  exists l, gff_read (fun _ => None) (line ++ [10]) = Rec l /\
+            (l_source l <> f_source r /\ l_start l = Err InvalidData).
+Proof. exact gff_source_refuted. Qed.
+Print Assumptions c18_gff_source_refuted.
+
+(* lazy line view = owned record, field by field *)
+Theorem c18_lazy_eq_owned : forall l f, owned_of_lazy l = Ok f ->
+  l_seqid l = f_seqid f /\ l_source l = f_source f /\ l_type l = f_type f
+  /\ l_start l = Ok (f_start f) /\ l_end l = Ok (f_end f)
+  /\ l_score l = option_map Ok (f_score f) /\ l_strand l = Ok (f_strand f)
+  /\ l_phase l = option_map Ok (f_phase f) /\ l_attrs l = (f_attrs f, None).
+Proof. exact gff_lazy_eq_owned. Qed.
+Print Assumptions c18_lazy_eq_owned.
+
+(* ---- GTF ---- *)
+Theorem c18_gtf_value_escape_roundtrip : forall v, gtf_unescape false (gtf_escape v) = Some v.
+Proof. exact gtf_value_escape_roundtrip. Qed.
+Print Assumptions c18_gtf_value_escape_roundtrip.
+
+(* PARTIAL: one `key 'value';` item, for values without ''' (the known class).  The full record
+   statement below is not proved in this revision (the IndexMap regrouping of repeated keys). *)
+Theorem c18_gtf_record_roundtrip_partial : forall k x rest, key_ok k -> ~ In 34 x ->
+  gtf_parse_field (gtf_item_text k x ++ rest) = Ok (k, gtf_escape x, consume_terminator (59 :: rest)).
+Proof. exact gtf_item_roundtrip. Qed.
+Print Assumptions c18_gtf_record_roundtrip_partial.
+
+Definition c18_gtf_record_roundtrip_full_statement : Prop :=
+  forall fmt prs r line,
+    Forall (fun kv => key_ok (fst kv) /\ value_items (snd kv) <> [] /\
+                      Forall (fun x => ~ In 34 x /\ ~ In 10 x) (value_items (snd kv))) (f_attrs r) ->
+    NoDup (map fst (f_attrs r)) ->
+    gtf_write fmt r = Ok line ->
+    exists l, gtf_read prs (line ++ [10]) = GRec l /\ fst (l_attrs l) = canon_attrs (f_attrs r).
+
+Theorem c18_gtf_quote_refuted : exists k x,
+  key_ok k /\ gtf_attrs_parse (gtf_attrs_text [(k, VString x)]) = Err InvalidData.
+Proof. exact gtf_quote_refuted. Qed.
+Print Assumptions c18_gtf_quote_refuted.
+
+(* ---- BED ---- *)
+(* PARTIAL (structural core): the line splits back into exactly the standard columns followed by
+   the extra columns, in order, for BED3..BED6 + any number of extra columns; the per-column
+   parsers invert the writers (lemmas bed_*_roundtrip in Text/BedProofs.v). *)
+Theorem c18_bed_record_roundtrip_partial : forall r line, bed_write r = Ok line ->
+  split_all 9 (first_line (line ++ [10])) = bed_std_columns r ++ b_others r.
+Proof. exact bed_fields_roundtrip. Qed.
+Print Assumptions c18_bed_record_roundtrip_partial.
+
+Theorem c18_bed_start_roundtrip : forall s, 1 <= s <= u64_max -> bed_parse_start (fmt_dec (s - 1)) = Ok s.
+Proof. exact bed_start_roundtrip. Qed.
+Print Assumptions c18_bed_start_roundtrip.
+
+Theorem c18_bed_name_roundtrip : forall nm, nm <> Some [46] ->
+  bed_parse_name (match nm with Some s => s | None => [46] end) = nm.
+Proof. exact bed_name_roundtrip. Qed.
+Print Assumptions c18_bed_name_roundtrip.
+
+(* ---- non-vacuity ---- *)
+Definition demo_fmt (x : N) : list N := [49; 46; 53].          (* '1.5' *)
+Definition demo_prs (s : list N) : option N := if bytes_eqb s [49; 46; 53] then Some 1069547520 else None.
+Definition demo : feature :=
+  {| f_seqid := [99; 104; 114; 49]; f_source := [46]; f_type := [67; 68; 83];
+     f_start := 1; f_end := 18446744073709551615; f_score := Some 1069547520;
+     f_strand := SUnknown; f_phase := Some PTwo;
+     f_attrs := [([78; 111; 116; 101], VString [59; 61; 38; 44; 37; 9; 10; 233]);
+                 ([], VArray [[]; [44]; []])] |}.
+
+Example demo_wf : gff_wf demo_fmt demo_prs demo /\ seqid_plain demo.
+Proof.
+  unfold gff_wf, seqid_plain, demo, bytes_ok, is_byte, u64_max, attr_ok. cbn.
+  repeat split; try lia; try (intros [E|[]]; discriminate);
+    try (intros [E|[E|[E|[]]]]; discriminate); try discriminate;
+    try (injection H as H; subst; reflexivity);
+    repeat (constructor; try reflexivity; try lia).
+  all: try (intros x E; injection E as E; subst x; repeat split; try reflexivity;
+            try (intros [E|[E|[E|[]]]]; discriminate); discriminate).
+  all: repeat (constructor; cbn; try lia).
+Qed.
+
+Example demo_roundtrip :
+  match gff_write demo_fmt demo with
+  | Ok line => match gff_read demo_prs (line ++ [10]) with
+               | Rec l => owned_of_lazy l = Ok demo
+               | _ => False
+               end
+  | _ => False
+  end.
+Proof. vm_compute. reflexivity. Qed.
